@@ -29,7 +29,16 @@ const verif::Info verif_info = {
     "negated when swapped, transitive, compare_i/compare_ni/compare(...,case_insensitive)/less_i/equal_i/compare_ci agree in sign; hash/std::hash equal "
     "for equal strings built directly, by assignment over a longer value and as substr of a longer string; hash_i equal for fold-equal strings; "
     "to_upper/to_lower = per-byte ASCII reference. Non-trivial: some pair of the triple shares a prefix >= 1 and differs, or is fold-equal but not equal, "
-    "or its lengths differ by >= 2^31. Enumerated triples are checked on the sign matrix and are not counted as evaluations (their number is in exhausted_subdomains).",
+    "or its lengths differ by >= 2^31. Enumerated triples are checked on the sign matrix and are not counted as evaluations (their number is in exhausted_subdomains). "
+    "Extension: every pair also runs the C string / char8_t string on the LEFT of == and != (where the expression is well-formed), all char8_t overloads with an explicit case mode, "
+    "the three-argument compare_cs/compare_ci helpers, less_i/equal_i in both operand orders; prefix limits additionally each size -1/+1 and the position of the first NUL of the right operand (+1). "
+    "Every operand is compared with 'nothing' in every spelling: ST::null on either side (operator and explicit free-function call), a null const T* / const char8_t* (modelled as empty), default-constructed, (nullptr,0), ST::null-constructed, "
+    "(0,fill) and clear()ed objects. Objects in unusual pre-states: each operand is brought into a buffer<T> by 15 histories (short text then copy-assigned a long one then allocate(n)[,fill] and refilled = stale in-object bytes; moved-from and refilled; "
+    "clear()ed and refilled; copy/move-constructed and copy/move-assigned from such a buffer; _stbuf literal operator; (count,fill) overwritten; assigned ST::null; moved-from and clear()ed as they are; self-assigned) and into an ST::string by 13 histories "
+    "(from_validated of such buffers, set_validated over longer/shorter values, _st literal operator, char8_t forms, clear()/ST::null then assignment, moved-from, substr); a third of the histories per case; the oracle works on the units the object itself reports. "
+    "Standard containers: std::set/map keyed by < and by less_i, unordered_set/map keyed by std::hash / ST::hash with == and by hash_i with equal_i, std::sort: sizes = number of distinct values / of fold classes, iteration = reference order, every value found again "
+    "through an equal string of another history and through its to_upper/to_lower forms. Long operands (first byte FD; FC directed): periodic texts of 41..8192 units, lengths on and next to powers of two, derived as above; enumerated: lengths 15..8192 on/next to powers of two x "
+    "{last, first, middle, block-boundary unit differs, all/one letter case-flipped, one unit shorter/longer, equal copy} for all four unit types.",
     true, "exploration"};
 
 namespace {
@@ -76,7 +85,7 @@ template <class T> int nlist(const Vec<T> &x, const Vec<T> &y, size_t extra, siz
     size_t mx = x.size() > y.size() ? x.size() : y.size();
     const size_t yz = ref::zlen(y.data(), y.size());     // what a NUL-terminated view of y can see
     size_t cand[] = {0, 1, cpl ? cpl - 1 : 0, cpl, cpl + 1, x.size(), y.size(), mx + 1, (size_t)1 << 31, SIZE_MAX, extra,
-                     x.size() ? x.size() - 1 : 0, x.size() + 1, y.size() ? y.size() - 1 : 0, y.size() + 1, yz, yz + 1, mx + 2};
+                     x.size() ? x.size() - 1 : 0, x.size() + 1, y.size() ? y.size() - 1 : 0, y.size() + 1, yz, yz + 1};
     int k = 0;
     for (size_t c : cand) { bool dup = false; for (int i = 0; i < k; i++) dup |= out[i] == c; if (!dup) out[k++] = c; }
     return k;
@@ -421,16 +430,21 @@ template <class T> std::unique_ptr<ST::buffer<T>> make_buffer(int k, const T *p,
     }
 }
 
-template <class T> struct StateBuf { std::unique_ptr<ST::buffer<T>> b; Vec<T> v; };
-template <class T> void make_buffer_states(const Vec<T> &x, std::vector<StateBuf<T>> &out) {
+template <class T> struct StateBuf { int k; std::unique_ptr<ST::buffer<T>> b; Vec<T> v; };
+// state 0 and every state k with k % 3 == third (a third of the table per case keeps a case cheap; the selector is a
+// function of the operands, so all states meet all kinds of operands over a run)
+template <class T> void make_buffer_states(const Vec<T> &x, unsigned third, std::vector<StateBuf<T>> &out) {
     Blk<T> bx(x.data(), x.size());
-    out.resize(N_BSTATE);
     for (int k = 0; k < N_BSTATE; k++) {
-        out[k].b = make_buffer<T>(k, bx.p, x.size());
-        out[k].v.assign(out[k].b->data(), out[k].b->data() + out[k].b->size());     // the value the object reports now
+        if (k && (unsigned)k % 3 != third) continue;
+        out.emplace_back();
+        StateBuf<T> &s = out.back();
+        s.k = k;
+        s.b = make_buffer<T>(k, bx.p, x.size());
+        s.v.assign(s.b->data(), s.b->data() + s.b->size());     // the value the object reports now
     }
 }
-template <class T> bool check_state_pair_buffer(const StateBuf<T> &sx, int kx, const StateBuf<T> &sy, int ky, const char *xn, const char *yn, Fail &f) {
+template <class T> bool check_state_pair_buffer(const StateBuf<T> &sx, const StateBuf<T> &sy, const char *xn, const char *yn, Fail &f) {
     typedef ST::buffer<T> B;
     const B &X = *sx.b, &Y = *sy.b;
     const Vec<T> &x = sx.v, &y = sy.v;
@@ -441,7 +455,7 @@ template <class T> bool check_state_pair_buffer(const StateBuf<T> &sx, int kx, c
               f.truth(X < Y, want < 0, "buffer <", xn, yn) && f.truth(Y < X, want > 0, "buffer < swapped", xn, yn) &&
               f.sign(X.compare_n(Y, cpl + 1), ref::cmp_n(x.data(), x.size(), y.data(), y.size(), cpl + 1), "buffer::compare_n(buffer, common prefix + 1)", xn, yn) &&
               f.sign(Y.compare_n(X, cpl), 0, "buffer::compare_n(buffer, common prefix) swapped", xn, yn);
-    if (!ok) f.why += std::string(" [the units are those the objects report; x: ") + bstate_name[kx] + "; y: " + bstate_name[ky] + "]";
+    if (!ok) f.why += std::string(" [the units are those the objects report; x: ") + bstate_name[sx.k] + "; y: " + bstate_name[sy.k] + "]";
     return ok;
 }
 
@@ -480,16 +494,19 @@ std::unique_ptr<ST::string> make_string(int k, const char *p, size_t n) {
     case 12: { std::string framed = "\x7F<<" + std::string(p, n) + ">>\x80 tail tail tail"; const S big = S::from_validated(framed.data(), framed.size()); return std::make_unique<S>(big.substr(3, n)); }
     }
 }
-struct StateStr { std::unique_ptr<ST::string> s; Vec<char> v; };
-void make_string_states(const Vec<char> &x, std::vector<StateStr> &out) {
+struct StateStr { int k; std::unique_ptr<ST::string> s; Vec<char> v; };
+void make_string_states(const Vec<char> &x, unsigned third, std::vector<StateStr> &out) {
     Blk<char> bx(x.data(), x.size());
-    out.resize(N_SSTATE);
     for (int k = 0; k < N_SSTATE; k++) {
-        out[k].s = make_string(k, bx.p, x.size());
-        out[k].v.assign(out[k].s->c_str(), out[k].s->c_str() + out[k].s->size());
+        if (k && (unsigned)k % 3 != third) continue;
+        out.emplace_back();
+        StateStr &s = out.back();
+        s.k = k;
+        s.s = make_string(k, bx.p, x.size());
+        s.v.assign(s.s->c_str(), s.s->c_str() + s.s->size());
     }
 }
-bool check_state_pair_string(const StateStr &sx, int kx, const StateStr &sy, int ky, const char *xn, const char *yn, Fail &f) {
+bool check_state_pair_string(const StateStr &sx, const StateStr &sy, const char *xn, const char *yn, Fail &f) {
     const ST::string &X = *sx.s, &Y = *sy.s;
     const Vec<char> &x = sx.v, &y = sy.v;
     const int want = ref::cmp(x.data(), x.size(), y.data(), y.size());
@@ -504,7 +521,7 @@ bool check_state_pair_string(const StateStr &sx, int kx, const StateStr &sy, int
               (want != 0 || (f.truth(ST::hash()(X) == ST::hash()(Y), true, "hash(x) == hash(y) for equal strings", xn, yn) &&
                              f.truth(std::hash<ST::string>()(X) == std::hash<ST::string>()(Y), true, "std::hash(x) == std::hash(y) for equal strings", xn, yn))) &&
               (!feq || f.truth(ST::hash_i()(X) == ST::hash_i()(Y), true, "hash_i(x) == hash_i(y) for fold-equal strings", xn, yn));
-    if (!ok) f.why += std::string(" [the bytes are those the objects report; x: ") + sstate_name[kx] + "; y: " + sstate_name[ky] + "]";
+    if (!ok) f.why += std::string(" [the bytes are those the objects report; x: ") + sstate_name[sx.k] + "; y: " + sstate_name[sy.k] + "]";
     return ok;
 }
 
@@ -514,7 +531,7 @@ template <class T> std::string values(const std::vector<Vec<T>> &v) { std::strin
 template <class T> std::string check_containers_buffer(const std::vector<StateBuf<T>> (&st)[3]) {
     typedef ST::buffer<T> B;
     std::vector<Vec<T>> vals; std::vector<const B *> objs;
-    for (int i = 0; i < 3; i++) for (int k : {0, 1 + (int)((st[i][0].v.size() + 5 * i) % (N_BSTATE - 1))}) { vals.push_back(st[i][k].v); objs.push_back(st[i][k].b.get()); }
+    for (int i = 0; i < 3; i++) for (size_t k : {(size_t)0, 1 + (st[i][0].v.size() + i) % (st[i].size() - 1)}) { vals.push_back(st[i][k].v); objs.push_back(st[i][k].b.get()); }
     const size_t nd = ref::count_distinct(vals);
     const std::vector<Vec<T>> order = ref::sorted_by_cmp(vals);
     std::set<B> s;
@@ -538,7 +555,7 @@ template <class T> std::string check_containers_buffer(const std::vector<StateBu
 std::string check_containers_string(const std::vector<StateStr> (&st)[3]) {
     typedef ST::string S;
     std::vector<Vec<char>> vals; std::vector<const S *> objs;
-    for (int i = 0; i < 3; i++) for (int k : {0, 1 + (int)((st[i][0].v.size() + 5 * i) % (N_SSTATE - 1)), 1 + (int)((st[i][0].v.size() + 5 * i + 4) % (N_SSTATE - 1))}) { vals.push_back(st[i][k].v); objs.push_back(st[i][k].s.get()); }
+    for (int i = 0; i < 3; i++) for (size_t k : {(size_t)0, 1 + (st[i][0].v.size() + i) % (st[i].size() - 1)}) { vals.push_back(st[i][k].v); objs.push_back(st[i][k].s.get()); }
     const size_t nd = ref::count_distinct(vals), nf = ref::count_fold_classes(vals);
     const std::vector<Vec<char>> order = ref::sorted_by_cmp(vals);
     const std::string among = " (values {" + values(vals) + "})";
@@ -566,7 +583,7 @@ std::string check_containers_string(const std::vector<StateStr> (&st)[3]) {
         const S up = alt.to_upper(), lo = alt.to_lower();
         if (s1.count(alt) != 1 || m1.count(alt) != 1 || u1.count(alt) != 1 || u2.count(alt) != 1) return "an inserted value is not found again in set/map/unordered_set keyed by <, == and hash: " + show(vals[i]) + among;
         if (!same(*s1.find(alt), vals[i]) || !same(*u1.find(alt), vals[i])) return "set/unordered_set lookup of " + show(vals[i]) + " returns a different value" + among;
-        for (const S *q : {&x, &alt, &up, &lo}) {
+        for (const S *q : {&x, &up, &lo}) {
             if (s2.count(*q) != 1 || m2.count(*q) != 1 || u3.count(*q) != 1 || um.count(*q) != 1)
                 return "a value equal after folding A-Z to an inserted one is not found in a container keyed by less_i or hash_i/equal_i: " + show(vals[i]) + among;
             const S &hit = *u3.find(*q);
@@ -585,20 +602,19 @@ std::string check_containers_string(const std::vector<StateStr> (&st)[3]) {
 // all of the above for one triple
 template <class T> std::string check_states_and_containers(const Vec<T> (&v)[3], bool containers) {
     Fail f;
+    unsigned h = (unsigned)(v[0].size() + 3 * v[1].size() + 5 * v[2].size());
+    if (!v[0].empty()) h += ref::ukey(v[0][0]);
+    if (!v[1].empty()) h += ref::ukey(v[1].back()) >> 1;
     std::vector<StateBuf<T>> sb[3];
-    for (int i = 0; i < 3; i++) { check_operand_buffer<T>(v[i], opn[i], f); if (f.bad()) return f.why; make_buffer_states<T>(v[i], sb[i]); }
-    for (int i = 0; i < 3; i++) for (int j = i; j < 3; j++) for (int k = 0; k < N_BSTATE; k++) {
-        const int ky = (k * 4 + 1 + i + 2 * j) % N_BSTATE;     // 4 is coprime to 15: every state meets a different one
-        if (!check_state_pair_buffer<T>(sb[i][k], k, sb[j][ky], ky, opn[i], opn[j], f)) return f.why;
-    }
+    for (int i = 0; i < 3; i++) { check_operand_buffer<T>(v[i], opn[i], f); if (f.bad()) return f.why; make_buffer_states<T>(v[i], h % 3, sb[i]); }
+    for (int i = 0; i < 3; i++) for (int j = i; j < 3; j++) for (size_t k = 0; k < sb[i].size(); k++)
+        if (!check_state_pair_buffer<T>(sb[i][k], sb[j][(k + 1 + i + j) % sb[j].size()], opn[i], opn[j], f)) return f.why;
     if (containers) { std::string why = check_containers_buffer<T>(sb); if (!why.empty()) return why; }
     if constexpr (std::is_same<T, char>::value) {
         std::vector<StateStr> ss[3];
-        for (int i = 0; i < 3; i++) { check_operand_string_nothing(v[i], opn[i], f); if (f.bad()) return f.why; make_string_states(v[i], ss[i]); }
-        for (int i = 0; i < 3; i++) for (int j = i; j < 3; j++) for (int k = 0; k < N_SSTATE; k++) {
-            const int ky = (k * 5 + 1 + i + 2 * j) % N_SSTATE;
-            if (!check_state_pair_string(ss[i][k], k, ss[j][ky], ky, opn[i], opn[j], f)) return f.why;
-        }
+        for (int i = 0; i < 3; i++) { check_operand_string_nothing(v[i], opn[i], f); if (f.bad()) return f.why; make_string_states(v[i], (h / 3) % 3, ss[i]); }
+        for (int i = 0; i < 3; i++) for (int j = i; j < 3; j++) for (size_t k = 0; k < ss[i].size(); k++)
+            if (!check_state_pair_string(ss[i][k], ss[j][(k + 1 + i + j) % ss[j].size()], opn[i], opn[j], f)) return f.why;
         if (containers) { std::string why = check_containers_string(ss); if (!why.empty()) return why; }
     }
     return std::string();
@@ -805,6 +821,8 @@ template <class T> std::string render_huge(const Huge<T> &h) {
            nstr(huge_len(h.ib, h.b.size())) + "; 4- and 5-argument forms, both orders" + (std::is_same<T, char>::value ? ", compare_cs, compare_ci" : "");
 }
 
+template <class T> int finish_triple(const Triple<T> &t, Case &c);
+
 template <class T> int run_triple(verif::Reader &r, Case &c, bool directed) {
     Triple<T> t;
     if (directed) {
@@ -818,6 +836,52 @@ template <class T> int run_triple(verif::Reader &r, Case &c, bool directed) {
         static const size_t extra[] = {0, 2, 3, 5, 9, 14, 15, 16, 17, 30, 33, ((size_t)1 << 32), ((size_t)1 << 32) + 1, SIZE_MAX - 1, ((size_t)1 << 63), ((size_t)1 << 31) - 1};
         t.extra_n = r.pick(extra);
     }
+    return finish_triple<T>(t, c);
+}
+
+// long operands: a periodic text (period 1..16 over the boundary alphabet, so that the operands agree over long stretches)
+// of a length on or next to a power of two, with up to two units altered; the other operands are derived from it as usual
+template <class T> Vec<T> gen_long(verif::Reader &r) {
+    static const uint16_t lens[] = {64, 63, 65, 41, 127, 128, 129, 255, 256, 257, 511, 512, 513, 1023, 1024, 1025, 100, 1000, 2047, 2048, 2049, 3000, 4095, 4096, 4097, 8191, 8192, 300, 700, 1500};
+    const size_t L = r.chance(64) ? (size_t)r.range(41, 8192) : (size_t)r.pick(lens);
+    const size_t period = 1 + r.idx(16);
+    T pat[16];
+    for (size_t i = 0; i < period; i++) pat[i] = alpha_pick<T>(r);
+    Vec<T> v(L);
+    for (size_t i = 0; i < L; i++) v[i] = pat[i % period];
+    for (size_t k = r.idx(3); k > 0; k--) { size_t at = r.idx(L); v[at] = alpha_pick<T>(r); }
+    return v;
+}
+enum { LONG_MAX_UNITS = 8200 };
+template <class T> std::vector<uint8_t> encode_long(int type, const Triple<T> &t) {
+    std::vector<uint8_t> o = {0xFC, (uint8_t)type};
+    for (int i = 0; i < 3; i++) { o.push_back((uint8_t)(t.v[i].size() & 0xFF)); o.push_back((uint8_t)(t.v[i].size() >> 8)); }
+    for (int i = 0; i < 8; i++) o.push_back((uint8_t)((uint64_t)t.extra_n >> (8 * i)));
+    for (int i = 0; i < 3; i++) put_units(o, t.v[i]);
+    return o;
+}
+template <class T> int run_long(verif::Reader &r, Case &c, bool directed) {
+    Triple<T> t;
+    if (directed) {
+        size_t l[3];
+        for (int i = 0; i < 3; i++) { l[i] = r.u8(); l[i] |= (size_t)r.u8() << 8; if (l[i] > LONG_MAX_UNITS) l[i] = LONG_MAX_UNITS; }
+        t.extra_n = (size_t)r.bits64();
+        for (int i = 0; i < 3; i++) t.v[i] = get_units<T>(r, l[i]);
+        c.label("directed-triple");
+    } else {
+        t.v[0] = gen_long<T>(r);
+        t.v[1] = derive<T>(r, t.v[0], c);
+        t.v[2] = derive<T>(r, r.flag() ? t.v[1] : t.v[0], c);
+        static const size_t extra[] = {0, 63, 64, 65, 255, 256, 257, 1023, 1024, 1025, 4096, 8191, ((size_t)1 << 32), SIZE_MAX - 1, ((size_t)1 << 63), ((size_t)1 << 31) - 1};
+        t.extra_n = r.pick(extra);
+    }
+    c.label("long-operands(41..8200 units)");
+    const size_t L = t.v[0].size();
+    if (L >= 63 && (((L + 1) & L) == 0 || (L & (L - 1)) == 0 || ((L - 1) & (L - 2)) == 0)) c.label("long:length-2^k-1/2^k/2^k+1");
+    return finish_triple<T>(t, c);
+}
+
+template <class T> int finish_triple(const Triple<T> &t, Case &c) {
     bool nt = false, fo = false, hasnul = false, hi = false, longv = false;
     for (int i = 0; i < 3; i++) {
         for (int j = 0; j < 3; j++) if (i != j) {
@@ -834,6 +898,16 @@ template <class T> int run_triple(verif::Reader &r, Case &c, bool directed) {
     if (hasnul) c.label("embedded-NUL");
     if (hi) c.label(sizeof(T) == 1 ? "byte>=0x80" : "high-unit");
     if (longv) c.label("operand>=16-units(heap)");
+    {   // classes of the added checks: which storage the pre-state objects use, whether containers have anything to collapse
+        bool inobj = false, emptyop = false;
+        for (int i = 0; i < 3; i++) { inobj |= t.v[i].size() < in_object_units<T>(); emptyop |= t.v[i].empty(); }
+        if (inobj) c.label("pre-states:in-object-storage");
+        if (emptyop) c.label("operand:empty(ST::null/null-pointer/empty-buffer forms bite)");
+        std::vector<Vec<T>> vals(t.v, t.v + 3);
+        const size_t nd = ref::count_distinct(vals);
+        if (nd < 3) c.label("containers:equal-values-collapse");
+        if constexpr (std::is_same<T, char>::value) if (ref::count_fold_classes(vals) < nd) c.label("containers:fold-classes<distinct-values");
+    }
     if (c.want_text) c.text = render_triple(t);
     std::string why = check_triple(t);
     if (!why.empty()) return c.fail(why);
@@ -877,6 +951,17 @@ template <class T> int run_huge(verif::Reader &r, Case &c, bool directed) {
 int verif_case(const uint8_t *data, size_t size, Case &c) {
     verif::Reader r(data, size, c);
     uint8_t mode = r.u8();
+    if (mode == 0xFD || mode == 0xFC) {          // long operands: 0xFD generated, 0xFC directed (explicit units, 16-bit lengths)
+        const bool dir = mode == 0xFC;
+        const uint8_t sel = r.u8();
+        const int type = dir ? (sel & 3) : (sel % 6 < 3 ? 0 : (int)(sel % 6) - 2);      // half char, the rest spread over the wide types
+        switch (type) {
+        case 0: return run_long<char>(r, c, dir);
+        case 1: return run_long<wchar_t>(r, c, dir);
+        case 2: return run_long<char16_t>(r, c, dir);
+        default: return run_long<char32_t>(r, c, dir);
+        }
+    }
     bool directed = mode >= 0xFE;
     bool huge;
     int type;
@@ -913,7 +998,7 @@ template <class T> Vec<Vec<T>> short_strings(const uint32_t *units, int nu, int 
 
 struct EnumCtx {
     int shard, nshards; verif::EnumReport &r; std::vector<uint8_t> cur; bool failed = false;
-    template <class T> bool pair(int type, const Vec<T> &x, const Vec<T> &y, bool operands) {
+    template <class T> bool pair(int type, const Vec<T> &x, const Vec<T> &y, bool operands, bool states = false) {
         Triple<T> t; t.v[0] = x; t.v[1] = y; t.v[2] = x; t.extra_n = 2;
         cur = encode_triple(type, t); verif::set_current(cur.data(), cur.size());
         r.evaluations++;
@@ -926,6 +1011,7 @@ struct EnumCtx {
                 if (!f.bad()) check_pair_string(x, y, 2, "a", "b", f);
                 if (!f.bad() && operands) check_operand_string(x, "a", f);
             }
+            if (!f.bad() && states) f.why = check_states_and_containers<T>(t.v, true);
         } catch (...) { f.why = "unexpected " + verif::describe_current_exception(); }
         if (f.bad()) { fail(f.why, render_triple(t)); return false; }
         return true;
@@ -942,7 +1028,7 @@ struct EnumCtx {
         for (int i = shard; i < N; i += nshards) for (int j = 0; j < N; j++) {
             if (S[i].size() < min_new && S[j].size() < min_new) continue;
             if (std::is_same<T, char>::value && S[i].size() == 1 && S[j].size() == 1) continue;     // the one-byte sweep has all of these
-            if (!pair<T>(type, S[i], S[j], j == 0)) return false;
+            if (!pair<T>(type, S[i], S[j], j == 0, (i * 7 + j) % 16 == 0)) return false;
             if (i == shard && shard == type && j == N / 2 + 3) { Triple<T> t; t.v[0] = S[i]; t.v[1] = S[j]; t.v[2] = S[i]; t.extra_n = 2; r.samples.push_back(render_triple(t)); }
         }
         // matrices are cheap (N^2 plain calls): every shard builds them, then checks the triples whose first index it owns
@@ -980,6 +1066,38 @@ struct EnumCtx {
                                               verif::num(maxlen) + " over " + what);
         return true;
     }
+    // long operands on and next to powers of two, differing at the far end, in the middle, at a block boundary, by case, by length
+    template <class T> bool long_table(int type) {
+        static const uint16_t LL[] = {15, 16, 17, 31, 32, 33, 63, 64, 65, 127, 128, 129, 255, 256, 257, 1023, 1024, 1025, 4095, 4096, 4097, 8191, 8192};
+        static const uint32_t PAT[7] = {'a', 'B', 0x80, 'z', 0, 'M', sizeof(T) == 1 ? 0xFFu : sizeof(T) == 2 ? 0xFFFFu : 0x7FFFFFFFu};
+        int idx = 0;
+        for (uint16_t L : LL) for (int variant = 0; variant < 6; variant++) {
+            if ((idx++ % nshards) != shard) continue;
+            Triple<T> t;
+            Vec<T> x(L);
+            for (size_t i = 0; i < L; i++) x[i] = (T)PAT[i % 7];
+            Vec<T> y = x, z = x;
+            auto bump = [](T &u) { const uint32_t v = ref::ukey(u); u = (T)(v == PAT[6] ? v - 1 : v + 1); };     // another unit, never above the alphabet's top
+            const size_t blk = (size_t)(L - 1) & ~(size_t)7;          // last multiple of 8 below L
+            switch (variant) {
+            case 0: bump(y[L - 1]); z.resize(L - 1); break;                              // last unit differs; proper prefix
+            case 1: bump(y[0]); z.push_back((T)0); break;                                // first unit differs; extension by a NUL
+            case 2: y[L / 2] = (T)0; z[L / 2 + 1] = clampT<T>(ref::ukey(z[L / 2 + 1]) ^ (sizeof(T) == 1 ? 0x80u : 0x8000u)); break;
+            case 3: for (T &u : y) { uint32_t v = ref::ukey(u); if ((v >= 'A' && v <= 'Z') || (v >= 'a' && v <= 'z')) u = (T)(v ^ 0x20); }    // all letters flipped
+                    for (size_t i = L; i-- > 0;) { uint32_t v = ref::ukey(z[i]); if ((v >= 'A' && v <= 'Z') || (v >= 'a' && v <= 'z')) { z[i] = (T)(v ^ 0x20); break; } } break;   // last letter flipped
+            case 4: bump(y[L - 2]); break;                                               // z stays an equal copy
+            default: bump(y[blk]); if (blk) bump(z[blk - 1]); else z.push_back((T)'a'); break;
+            }
+            t.v[0] = x; t.v[1] = y; t.v[2] = z; t.extra_n = L - 1;
+            cur = encode_long(type, t); verif::set_current(cur.data(), cur.size());
+            r.evaluations++; r.nontrivial++;
+            std::string why = check_triple(t);
+            if (!why.empty()) { fail(why, render_triple(t)); return false; }
+            if (L == 257 && variant == 0 && type == 0) r.samples.push_back(render_triple(t));
+        }
+        if (shard == 0) r.exhausted.push_back(std::string(tname<T>()) + ": triples of long operands of 15..8192 units (on and next to powers of two) differing in the last / first / middle / block-boundary unit, by case, by one unit of length, plus an equal copy - every form, pre-states, containers");
+        return true;
+    }
     template <class T> bool huge_table(int type) {
         static const uint32_t A[][3] = {{0, 0, 0}, {'a', 0, 0}, {'a', 'b', 0}, {'A', 'b', 0}, {'a', 0x80, 0}, {'a', 'b', 'c'}};
         static const int AL[] = {0, 1, 2, 2, 2, 3};
@@ -1010,11 +1128,12 @@ long verif_enumerate(int shard, int nshards, int tier, verif::EnumReport &r) {
     EnumCtx e{shard, nshards, r, {}, false};
     // huge lengths first: tiny, and the size arithmetic is where the shipped defect was
     if (!e.huge_table<char>(0) || !e.huge_table<wchar_t>(1) || !e.huge_table<char16_t>(2) || !e.huge_table<char32_t>(3)) return r.evaluations;
+    if (!e.long_table<char>(0) || !e.long_table<wchar_t>(1) || !e.long_table<char16_t>(2) || !e.long_table<char32_t>(3)) return r.evaluations;
     // all pairs of one-byte strings: the whole fold table, signedness of every byte
     {
         for (int a = shard; a < 256; a += nshards) for (int b = 0; b < 256; b++) {
             Vec<char> x(1, (char)a), y(1, (char)b);
-            if (!e.pair<char>(0, x, y, b == 0)) return r.evaluations;
+            if (!e.pair<char>(0, x, y, b == 0, a == b || (a * 5 + b) % 32 == 0)) return r.evaluations;
             Vec<char> x2 = {'m', (char)a, 'Q'}, y2 = {'M', (char)b};
             if (!e.pair<char>(0, x2, y2, false)) return r.evaluations;
         }
